@@ -134,6 +134,31 @@ func genC11(r *Rand) *VariantCase {
 		st = append(st, p.Stmts[len(p.Stmts)-1])
 		p.Stmts = st
 	}
+	// names whose body is negative, hexadecimal with the top bit of a byte/word set, or parenthesised, used under a sign, inside a
+	// product and next to a register in a memory operand
+	if r.Chance(1, 3) {
+		body := Pick(r, []string{"-1", "-128", "0xff", "0xffff", "(5)", "2*-3", "-129", "0x80"})
+		lit := "(" + body + ")"
+		br := map[int]string{16: "BX", 32: "EBX"}[mode]
+		sr := map[int]string{16: "SI", 32: "ESI"}[mode]
+		forms := []string{"\tMOV AL,[" + br + "-%s]", "\tMOV [" + sr + "-%s],AL", "\tDB %s", "\tADD BX,0-%s", "\tSUB CX,%s*2", "\tMOV AX,%s-1", "\tMOV AX,1-%s", "\tMOV AL,[" + br + "+%s*2]", "\tDW 0-%s", "\tCMP AL,%s",
+			"\tMOV DX,[" + br + "+" + sr + "-%s]", "\tDD 100-%s", "\tMOV CL,[" + sr + "+%s]"}
+		Shuffle(r, forms)
+		var use []PStmt
+		for _, f := range forms[:r.Range(2, 5)] {
+			use = append(use, PStmt{K: "raw", Text: fmt.Sprintf(f, "NEGK"), Alt: fmt.Sprintf(f, lit)})
+		}
+		k := 0
+		for k < len(p.Stmts) && (p.Stmts[k].K == "org" || p.Stmts[k].K == "bits") {
+			k++
+		}
+		st := append([]PStmt{}, p.Stmts[:k]...)
+		st = append(st, PStmt{K: "equ", Label: "NEGK", Text: body, Tag: "EQU"})
+		st = append(st, p.Stmts[k:len(p.Stmts)-1]...)
+		st = append(st, use...)
+		st = append(st, p.Stmts[len(p.Stmts)-1])
+		p.Stmts = st
+	}
 	src := p.Source()
 	// inlined variant: every name replaced by its parenthesised defining expression, EQU lines removed
 	dm := map[string]*Expr{}
@@ -204,7 +229,7 @@ func init() {
 				cases = append(cases, genC11(r))
 			}
 		}
-		rep.Rule = "names for constants of the upper half of the unsigned 32-bit range (directly and as a product) in ALU, PUSH, displacement, DD and arithmetic positions (a third of the programs); seeded programs from the size-clean pool in which immediates, displacements, data lanes, RESB/ALIGNB arguments and other EQU bodies are expressions over 1-5 chained EQU names (depth <= 4, names reused after appearing inside products and differences), " +
+		rep.Rule = "names with negative / top-bit / parenthesised bodies under a sign, in products and next to registers in memory operands (a third of the programs); names for constants of the upper half of the unsigned 32-bit range (directly and as a product) in ALU, PUSH, displacement, DD and arithmetic positions (a third of the programs); seeded programs from the size-clean pool in which immediates, displacements, data lanes, RESB/ALIGNB arguments and other EQU bodies are expressions over 1-5 chained EQU names (depth <= 4, names reused after appearing inside products and differences), " +
 			"versus the same program with every name textually replaced by its parenthesised defining expression and the EQU lines removed; plus EQU-only prefixes that must emit nothing; oracle: byte-identical outputs; distinct = (mode, origin, number of EQUs) cells"
 		outs := RunCases(env, cases)
 		for i := 0; i < len(cases) && len(rep.Samples) < 3; i += len(cases)/3 + 1 {
